@@ -62,13 +62,13 @@ theorem norm_mant (N a : Nat) (ha : a ≠ 0) (hL : bitLen a ≤ N) :
 theorem flipIf_flipIf_pos (b : Bool) (f : Flag) : Flag.flipIf f b = Flag.flipIf f b := rfl
 
 /-- magnitude and sign assembled: what every branch has to produce -/
-def withSign (F : Ieee) (sign : Nat) (r : Nat × Flag) : Nat × Flag :=
+def attachSign (F : Ieee) (sign : Nat) (r : Nat × Flag) : Nat × Flag :=
   (sign * 2 ^ (F.EB + F.MB) + r.1, r.2.flipIf (decide (sign > 0)))
 
 theorem encodeNormal_correct (c : EncConsts) (F : Ieee) (hc : Compatible c F) (sign a w : Nat) (e : Int)
     (_hs : sign < 2) (ha : a ≠ 0) (hL : bitLen a ≤ c.N)
     (ht : (bitLen a : Int) + e = F.qmin + F.prec + w) (hw : w + 3 ≤ 2 * F.B) :
-    encodeNormal c sign a (c.N - bitLen a) e = withSign F sign (ieeeRoundMag F a e) := by
+    encodeNormal c sign a (c.N - bitLen a) e = attachSign F sign (ieeeRoundMag F a e) := by
   have hok := hc.ok
   have hB := F.B_ge hok
   have hEB := hok.hEB
@@ -134,7 +134,7 @@ theorem encodeNormal_correct (c : EncConsts) (F : Ieee) (hc : Compatible c F) (s
       rw [shl_or _ _ _ hexl, Nat.shiftLeft_eq, Nat.shiftLeft_eq, pow_add]; ring
     rw [hb1, shl_or _ _ _ hfrlt]
     rw [finish_round sign _ fr 0 0 (by decide) (by decide)]
-    unfold withSign roundByBits
+    unfold attachSign roundByBits
     simp only [and_self, if_true, flipIf_exact]
     refine Prod.ext ?_ rfl
     simp only
@@ -216,7 +216,7 @@ theorem encodeNormal_correct (c : EncConsts) (F : Ieee) (hc : Compatible c F) (s
     have h1 := congrArg Prod.fst hsp
     have h2 := congrArg Prod.snd hsp
     simp only at h1 h2
-    unfold withSign
+    unfold attachSign
     rw [h2, h1]
     refine Prod.ext ?_ rfl
     simp only
@@ -239,7 +239,7 @@ theorem subRound_correct (F : Ieee) (hok : F.Ok) (sign a k : Nat) (e : Int)
      let q := wide >>> k
      let sticky : Nat := if q &&& 1 ≠ 0 ∨ wide &&& ((1 <<< k) - 1) ≠ 0 then 1 else 0
      finish sign ((sign <<< (F.EB + F.MB)) ||| (q >>> 2)) ((q &&& 0b110) ||| sticky)) =
-      withSign F sign (ieeeRoundMag F a e) := by
+      attachSign F sign (ieeeRoundMag F a e) := by
   rw [spec_sub_round F hok a k e he hk hL]
   simp only [Nat.and_one_is_mod, Nat.one_shiftLeft, Nat.and_two_pow_sub_one_eq_mod,
     Nat.shiftRight_eq_div_pow]
@@ -270,7 +270,7 @@ theorem subRound_correct (F : Ieee) (hok : F.Ok) (sign a k : Nat) (e : Int)
   rw [finish_round sign _ _ _ st (Nat.mod_lt _ (by decide)) hst2]
   have hsp := rneDiv_pow a k hk
   rw [hstdef] at hsp
-  unfold withSign
+  unfold attachSign
   rw [← hsp]
 
 /-- **encode_correct** (generic): with compatible constants the repaired `encode` returns the
@@ -301,8 +301,8 @@ theorem encodeFixed_correct (c : EncConsts) (F : Ieee) (hc : Compatible c F) (m 
   generalize hsdef : (if m < 0 then (1 : Nat) else 0) = sign
   have hs2 : sign < 2 := by rw [← hsdef]; split <;> decide
   have hspec : ((if m < 0 then F.signBit else 0) + (ieeeRoundMag F a e).1,
-      (ieeeRoundMag F a e).2.flipIf (decide (m < 0))) = withSign F sign (ieeeRoundMag F a e) := by
-    unfold withSign Ieee.signBit
+      (ieeeRoundMag F a e).2.flipIf (decide (m < 0))) = attachSign F sign (ieeeRoundMag F a e) := by
+    unfold attachSign Ieee.signBit
     rw [← hsdef]
     by_cases hneg : m < 0 <;> simp [hneg]
   rw [hspec]
@@ -317,18 +317,18 @@ theorem encodeFixed_correct (c : EncConsts) (F : Ieee) (hc : Compatible c F) (m 
     simp only [hov, if_true]
     rw [spec_over F hok a e ha (by rw [hc.ovf] at hov; omega), hc.inf, hc.signShl]
     rcases hsgn with rfl | rfl
-    · simp [withSign, Flag.flipIf]
+    · simp [attachSign, Flag.flipIf]
     · simp only [one_ne_zero, if_false]
       rw [shl_or _ _ _ hinf]
-      simp [withSign, Flag.flipIf]
+      simp [attachSign, Flag.flipIf]
   simp only [hov, if_false]
   by_cases hun : (bitLen a : Int) + e < c.unf
   · -- underflow
     simp only [hun, if_true]
     rw [spec_under F hok a e ha (by rw [hc.unf] at hun; omega), hc.signShl]
     rcases hsgn with rfl | rfl
-    · simp [withSign, Flag.flipIf]
-    · simp [withSign, Flag.flipIf, Nat.shiftLeft_eq]
+    · simp [attachSign, Flag.flipIf]
+    · simp [attachSign, Flag.flipIf, Nat.shiftLeft_eq]
   simp only [hun, if_false]
   rw [hc.unf] at hun
   rw [hc.ovf] at hov
@@ -348,7 +348,7 @@ theorem encodeFixed_correct (c : EncConsts) (F : Ieee) (hc : Compatible c F) (m 
           _ = 2 ^ (bitLen a + j) := by rw [pow_add]
           _ ≤ 2 ^ (F.EB + F.MB) := pow_le_pow2 (by omega)
       rw [shl_or _ _ _ hlt]
-      simp [withSign, flipIf_exact]
+      simp [attachSign, flipIf_exact]
     · simp only [hsh, if_false]
       obtain ⟨k, hk⟩ : ∃ k : Nat, e + k = F.qmin := ⟨(F.qmin - e).toNat, by omega⟩
       have hkt : (-(e + -F.qmin)).toNat = k := by omega
